@@ -560,6 +560,15 @@ func (c *Ctx) lockAnalysis0() *lockAnalysis {
 		field string
 		excl  bool
 	}
+	// runnerArgs: the guarded members the runner hands to the function it runs (f(s.sessions)): runner -> function
+	// parameter index -> argument position of f -> member name
+	runnerArgs := map[*ssa.Function]map[int]map[int]string{}
+	type aliasSite struct {
+		cf     *ssa.Function // the literal run under the lock
+		recv   ssa.Value     // the monitor the runner was called on, in the caller's frame
+		member map[int]string
+	}
+	var aliasSites []aliasSite
 	runners := map[*ssa.Function]map[int]runnerSum{}
 	for _, f := range c.P.ModFuncs() {
 		if f.Parent() != nil || f.Signature.Recv() == nil {
@@ -591,6 +600,19 @@ func (c *Ctx) lockAnalysis0() *lockAnalysis {
 					break
 				}
 				sum = here
+				for k, a := range ci.Call.Args {
+					if ld, isLd := a.(*ssa.UnOp); isLd && ld.Op == token.MUL {
+						if fa, isFA := ld.X.(*ssa.FieldAddr); isFA && fa.X == ssa.Value(f.Params[0]) {
+							if runnerArgs[f] == nil {
+								runnerArgs[f] = map[int]map[int]string{}
+							}
+							if runnerArgs[f][i] == nil {
+								runnerArgs[f][i] = map[int]string{}
+							}
+							runnerArgs[f][i][k] = fieldNameOf(fa.X.Type(), fa.Field)
+						}
+					}
+				}
 			}
 			if okAll && sum != nil {
 				if runners[f] == nil {
@@ -629,6 +651,9 @@ func (c *Ctx) lockAnalysis0() *lockAnalysis {
 					}
 					wb := core.Term(cl.Common.Args[0])
 					la.locks[cf] = computeLocks(cf, lockset{wb + "|" + rs.field: heldLock{wb, rs.field, rs.excl}})
+					if ra := runnerArgs[cl.Static][i]; len(ra) > 0 {
+						aliasSites = append(aliasSites, aliasSite{cf, cl.Common.Args[0], ra})
+					}
 				}
 			}
 		}
@@ -691,6 +716,56 @@ func (c *Ctx) lockAnalysis0() *lockAnalysis {
 					}
 					mi.accesses = append(mi.accesses, acc)
 				}
+			}
+		}
+	}
+	// accesses made through a parameter that stands for a guarded member (the literal run by s.writing(func(registry) {…})
+	// works on registry, which is s.sessions loaded under the lock by the runner)
+	for _, as := range aliasSites {
+		m := c.monitorOf(la.monitors, as.recv.Type())
+		if m == nil {
+			continue
+		}
+		fl := la.locks[as.cf]
+		for k, name := range as.member {
+			if k >= len(as.cf.Params) || as.cf.Params[k].Referrers() == nil {
+				continue
+			}
+			mi := m.fields[name]
+			if mi == nil {
+				mi = &memberInfo{name: name, guardBy: map[string]int{}}
+				m.fields[name] = mi
+			}
+			bt := core.Term(as.recv)
+			for _, r := range *as.cf.Params[k].Referrers() {
+				acc := &memberAccess{fn: as.cf, instr: r, base: as.recv, held: fl.before[r]}
+				switch u := r.(type) {
+				case *ssa.DebugRef:
+					continue
+				case *ssa.MapUpdate:
+					acc.write = true
+				case *ssa.Call:
+					if b, isB := u.Call.Value.(*ssa.Builtin); isB && b.Name() == "delete" {
+						acc.write = true
+					}
+				case *ssa.IndexAddr:
+					if u.Referrers() != nil {
+						for _, rr := range *u.Referrers() {
+							if st, isSt := rr.(*ssa.Store); isSt && st.Addr == ssa.Value(u) {
+								acc.write = true
+							}
+						}
+					}
+				}
+				if acc.write {
+					mi.mutated = true
+				}
+				for _, h := range acc.held {
+					if h.base == bt {
+						mi.guardBy[h.field]++
+					}
+				}
+				mi.accesses = append(mi.accesses, acc)
 			}
 		}
 	}
